@@ -2128,3 +2128,7 @@ def run_regimes(ctx, numqi, drv):
             E.upb_to_bes(upb)       # monitored: judged against the CURRENT contents (a rotated UPB is a UPB)
             again = E.load_upb(kind, args)
             ctx.check(same(again, keep, 1e-15), 'load_upb/second-call-differs', 'load_upb: a call made after the caller edited an earlier result in place returns different factors', {'kind': kind})
+
+
+# thorough tier: every random shard is run this many times with independent random streams (see vmon/runner.py get_shards)
+THOROUGH_REPEAT = 4
